@@ -511,7 +511,10 @@ func c16IndentOnlyWhitespace(ind, cmp []gtok) (ok bool, where string, glued int)
 // c16AscendingOrder checks the output token stream: attribute names strictly ascending in every start
 // tag, sibling element names ascending under every parent.
 func c16AscendingOrder(ts []gtok) (attrBad, childBad string) {
-	type frame struct{ last string; has bool }
+	type frame struct {
+		last string
+		has  bool
+	}
 	stack := []*frame{{}}
 	for _, t := range ts {
 		switch t.Kind {
@@ -866,12 +869,18 @@ func c16MapCase(c *c16Ctx, r *Rng, o xOpts, m map[string]interface{}, root strin
 		call func(mv mxj.Map, w interface{ Write([]byte) (int, error) }) ([]byte, error)
 	}
 	wforms := []wform{
-		{"XmlWriter", false, 0, func(mv mxj.Map, w interface{ Write([]byte) (int, error) }) ([]byte, error) { return nil, mv.XmlWriter(w, ra...) }},
+		{"XmlWriter", false, 0, func(mv mxj.Map, w interface{ Write([]byte) (int, error) }) ([]byte, error) {
+			return nil, mv.XmlWriter(w, ra...)
+		}},
 		{"XmlIndentWriter", false, 1, func(mv mxj.Map, w interface{ Write([]byte) (int, error) }) ([]byte, error) {
 			return nil, mv.XmlIndentWriter(w, ind[0], ind[1], ra...)
 		}},
-		{"JsonWriter", false, 3, func(mv mxj.Map, w interface{ Write([]byte) (int, error) }) ([]byte, error) { return nil, mv.JsonWriter(w) }},
-		{"JsonWriterRaw", true, 4, func(mv mxj.Map, w interface{ Write([]byte) (int, error) }) ([]byte, error) { return mv.JsonWriterRaw(w, true) }},
+		{"JsonWriter", false, 3, func(mv mxj.Map, w interface{ Write([]byte) (int, error) }) ([]byte, error) {
+			return nil, mv.JsonWriter(w)
+		}},
+		{"JsonWriterRaw", true, 4, func(mv mxj.Map, w interface{ Write([]byte) (int, error) }) ([]byte, error) {
+			return mv.JsonWriterRaw(w, true)
+		}},
 		{"JsonIndentWriter", false, 5, func(mv mxj.Map, w interface{ Write([]byte) (int, error) }) ([]byte, error) {
 			return nil, mv.JsonIndentWriter(w, ind[0], ind[1])
 		}},
